@@ -1,4 +1,4 @@
-add("C01", "checks/c01_memsafe.c", ["default-asan", "noinfo-asan", "heap-asan", "dtostre-asan"], ["default-asan", "noinfo-asan", "heap-asan", "dtostre-asan"],
+add("C01", "checks/c01_memsafe.c", ["default-asan", "noinfo-asan", "heap-asan", "dtostre-asan"], ["default-asan", "noinfo-asan", "heap-asan", "dtostre-asan", "uchar-asan"],
     "cases = one byte stream executed on a fresh context with random geometry (input buffer 2..320 bytes or exactly stream length + 1, error queue "
     "1..4 entries, info heap 2..64 bytes) and random handler signatures applying every SCPI_Param*/ParamTo*/ParamArray*/Expr*/Result*/ResultArray* "
     "API plus the library's own IEEE 488.2 / SYSTem / STATus handlers: grammar streams over 56 header spellings and all program-data kinds with "
